@@ -229,11 +229,14 @@ func exec(op string) string {
 			return "HANG barrier"
 		}
 		delivered := w.mface.NOutInterests() - before - 1
-		frames, ok := w.flush(from)
-		if !ok {
-			return "HANG flush"
+		var datas []*spec.Data
+		if !w.closed[common.Atoi(f[1])] { // a closed transport emits nothing any more
+			frames, ok := w.flush(from)
+			if !ok {
+				return "HANG flush"
+			}
+			datas, _ = dataFromFrames(frames)
 		}
-		datas, _ := dataFromFrames(frames)
 		w.trackCreated()
 		return fmt.Sprintf("d=%d r=%s %s", delivered, w.respText(name, datas), w.dump())
 	case "send":
@@ -288,6 +291,24 @@ func exec(op string) string {
 			}
 		}
 		return fmt.Sprintf("ok frames=%d carried=%d maxframe=%d mtu=%d", len(frames)-len(alone), carried, maxLen, ls.MTU())
+	case "close":
+		// close <face>: the face's transport is closed locally — what the expiration handler and
+		// the shutdown path do (LinkService.Close). The face has to leave the face table.
+		lf := common.Atoi(f[1])
+		if lf == fM || lf == fZ {
+			return "skip"
+		}
+		ls := face.FaceTable.Get(w.real(uint64(lf)))
+		if ls == nil || w.closed[lf] {
+			return "noface"
+		}
+		w.closed[lf] = true
+		id := ls.FaceID()
+		w.closeFace(ls)
+		if !waitUntil("flush", func() bool { return face.FaceTable.Get(id) == nil && !w.goroutineIn("fw/face.(*Table).Remove") }) {
+			return "STUCK " + w.dump()
+		}
+		return "gone " + w.dump()
 	case "probe":
 		// probe <from> <name>: an ordinary Interest enters the forwarder (liveness of the forwarding
 		// thread after strategy-choice changes)
